@@ -253,7 +253,7 @@ def second_validation(rnd, first, rid="r1"):
     cer["hints"] = {key: f"H{key}@{rid}" for key in cer["hints"]}
     rc_keys = sorted(cer["requirement_constraints"])
     for pkey in sorted(cer["packages"]):
-        if rc_keys and rnd.random() < 0.6 and not pkey.startswith("88"):  # (88xP: planted invalid packages of C16)
+        if rc_keys and rnd.random() < 0.6 and int(pkey[:-1]) < 880:  # (from 880P: planted invalid packages of C16)
             first, second = rnd.choice(rc_keys), rnd.choice(rc_keys)
             cer["packages"][pkey] = rnd.choice([f"[{first}]", f"[{first}] U [{second}]", f"[{first}] X [{second}]"])
     if rnd.random() < 0.3:
